@@ -125,6 +125,8 @@ class Parser:
             TokenType.FLOAT: self.parse_float_literal,
             TokenType.FUNCTION: self.parse_function_extension,
             TokenType.INT: self.parse_integer_literal,
+            TokenType.LPAREN: self.parse_grouped_expression,
+            TokenType.NOT: self.parse_prefix_expression,
             TokenType.NULL: self.parse_null,
             TokenType.ROOT: self.parse_root_query,
             TokenType.CURRENT: self.parse_relative_query,
@@ -491,14 +493,27 @@ class Parser:
                     token=stream.current,
                 ) from err
 
+            parenthesized = stream.current.type_ == TokenType.LPAREN
             expr = func(stream)
 
             # The argument could be a comparison or logical expression
             peek_kind = stream.peek.type_
+            if (
+                parenthesized
+                and self.BINARY_OPERATORS.get(peek_kind) in self.COMPARISON_OPERATORS
+            ):
+                raise JSONPathSyntaxError(
+                    "comparison operands can not be parenthesized", token=stream.peek
+                )
+
             while peek_kind in self.BINARY_OPERATORS:
                 stream.next_token()
                 expr = self.parse_infix_expression(stream, expr)
                 peek_kind = stream.peek.type_
+
+            if parenthesized:
+                # A parenthesized argument is a logical expression.
+                self._raise_for_non_logical_parameter(tok, len(function_arguments))
 
             function_arguments.append(expr)
 
@@ -683,6 +698,18 @@ class Parser:
 
     def _is_low_surrogate(self, codepoint: int) -> bool:
         return codepoint >= 0xDC00 and codepoint <= 0xDFFF
+
+    def _raise_for_non_logical_parameter(self, token: Token, index: int) -> None:
+        func = self.env.function_extensions.get(token.value)
+        if (
+            isinstance(func, FilterFunction)
+            and index < len(func.arg_types)
+            and func.arg_types[index] != ExpressionType.LOGICAL
+        ):
+            raise JSONPathTypeError(
+                f"{token.value}() argument {index} must not be parenthesized",
+                token=token,
+            )
 
     def _raise_for_uncompared_value_function(
         self, expr: Expression, token: Token
